@@ -342,6 +342,13 @@ func cmdCheck(args []string) int {
 		}
 		m.Cfg = interp.Config{MaxSteps: 3000000, ConcCap: 64, Solver: "z3", TimeoutMs: 30000, Workers: *workers,
 			WitnessVecs: true, DiffSolvers: *tier == "thorough"}
+		// safety net: a runaway exploration ends as "truncated" (inconclusive),
+		// never as an out-of-memory kill
+		if *tier == "thorough" {
+			m.Cfg.MaxPaths, m.Cfg.Deadline = 3000000, time.Now().Add(45*time.Minute)
+		} else {
+			m.Cfg.MaxPaths, m.Cfg.Deadline = 600000, time.Now().Add(10*time.Minute)
+		}
 		if run.MaxSteps > 0 {
 			m.Cfg.MaxSteps = run.MaxSteps
 		}
